@@ -349,6 +349,8 @@ def run(P, R, L):
     K.grd20_create_only_when_missing(P, R, L)
     R.clause("GRD-21", "a failed manifest write removes only a manifest created by that very call, never the live one CURRENT names")
     K.grd21_manifest_cleanup(P, R, L)
+    R.clause("OWN-12", "release_version unlinks exactly the version node it was given")
+    K.own12_release_unlinks_that_version(P, R, L)
     R.not_decided += ["directory contents for a concrete history", "crash-orphan collection beyond the guards"]
     R.assumptions += ["only the background thread and DB::open run remove_obsolete_files (single deleter)",
                       "a version handle dropped while the mutex was held continuously since acquisition is still current and is "
